@@ -76,7 +76,7 @@ WK_ASSUME = [
 ]
 
 REGISTRY = {
-    "C01": {"module": "props.tokenizer", "units": ["lemmas", "ctor", "process", "post_process", "iter_tokens"],
+    "C01": {"module": "props.tokenizer", "units": ["lemmas", "ctor", "process", "post_process", "iter_tokens", "string_source"],
             "witness": "tok", "assumptions": TOK_ASSUME},
     "C02": {"module": "props.tokenizer", "units": ["lemmas", "ctor", "process", "post_process", "iter_tokens"],
             "witness": "tok", "assumptions": TOK_ASSUME},
@@ -131,7 +131,7 @@ REGISTRY = {
                 "sqrt/log10 axioms (instantiated): y>=0 => sqrt(y)>=0 and (sqrt(y)>0 <=> y>0); y>0 => log10(y) = 2*log10(sqrt(y)); "
                 "log10(1e-10) = -10; the -200 dB floor is en(y) = -200 if sqrt(y) < 1e-10 else 10*log10(y)",
                 "sample widths are case-split over {1, 2, 4, other}; channel count and window length are symbolic"]},
-    "C08": {"parts": [{"module": "props.tokenizer", "units": ["lemmas", "ctor", "process", "post_process", "iter_tokens", "tokenize"]},
+    "C08": {"parts": [{"module": "props.tokenizer", "units": ["lemmas", "ctor", "process", "post_process", "iter_tokens", "tokenize", "string_source"]},
                       {"module": "props.split", "units": ["split"]},
                       {"module": "props.readers", "units": ["fixed", "overlap_iter", "overlap_misc", "limiter"], "include_all": True}],
             "witness": "tok", "witness_also": [("api", "C05")],
@@ -224,7 +224,7 @@ REGISTRY = {
                 "sum() is 0 + r1 (-> __radd__) followed by __add__",
                 "division: 'sum of the pieces equals the original' follows from the proved tiling "
                 "(pieces are self[s(j):s(j+1)], s(0)=0, s(count)=len) by the proved concat lemma and induction on the piece count"]},
-    "C20": {"parts": [{"module": "props.tokenizer", "units": ["lemmas", "ctor", "process", "post_process", "iter_tokens", "stale_fields"]},
+    "C20": {"parts": [{"module": "props.tokenizer", "units": ["lemmas", "ctor", "process", "post_process", "iter_tokens", "stale_fields", "string_source"]},
                       {"module": "props.split", "units": ["split"]},
                       {"module": "props.validator", "units": ["is_valid"]},
                       {"module": "props.sources", "units": ["buffer_position", "buffer_init"]},
